@@ -1,4 +1,5 @@
 import PGV.Proofs.Walker
+import PGV.Proofs.Frame
 
 /-!
 # C02 — every violated rule is reported once, in order; nil iff none
@@ -70,6 +71,66 @@ theorem C02_flat_unknown_one_clause (c : FlatCfg) (scope ne nc : Bytes) (v : GoV
     flatRules c scope ne nc v (r :: rs) st
       = flatRules c scope ne nc v rs (st.write (getJoinFieldErr [] ne (unknownFnMsg (parseValidNameKV r).1))) :=
   flatRules_unknown c scope ne nc v r rs st hr hk
+
+/-! ### the walkers only append, and outputs concatenate in traversal order
+
+For every configuration, every value tree (any depth and width) and every state: running a walker
+function from a state is running it from the empty state and appending the result — the text it
+writes (and the group members it registers) never depend on what is already in the buffer, and
+nothing already written is touched. -/
+
+open PGV.Proofs.Frame in
+theorem C02_walker_appends (cfg : StructCfg) (name : Bytes) (v : GoVal) (g : Bool) (st : WSt) :
+    validate cfg name v g st = lift st (validate cfg name v g {}) := Frame_validate cfg name v g st
+
+open PGV.Proofs.Frame in
+theorem C02_fields_append (cfg : StructCfg) (sn : Bytes) (cus : RM) (fs : Fields) (st : WSt) :
+    fieldsLoop cfg sn cus fs st = lift st (fieldsLoop cfg sn cus fs {}) := Frame_fieldsLoop cfg sn cus fs st
+
+open PGV.Proofs.Frame in
+theorem C02_flat_rules_append (c : FlatCfg) (scope ne nc : Bytes) (v : GoVal) (rs : List Bytes) (st : WSt) :
+    flatRules c scope ne nc v rs st = lift st (flatRules c scope ne nc v rs {}) := Frame_flatRules c scope ne nc v rs st
+
+open PGV.Proofs.Frame in
+/-- declaration order: the output of a struct is the output of its first (marked) field followed by
+the output of the remaining fields -/
+theorem C02_fields_in_order (cfg : StructCfg) (sn : Bytes) (cus : RM) (name : Bytes)
+    (tags : List (Bytes × Bytes)) (v : GoVal) (rest : Fields) :
+    fieldsLoop cfg sn cus (.cons name true false tags v rest) {}
+      = ((if (effectiveRule cfg cus name tags).isEmpty then pure {}
+          else fieldRules cfg.ext cfg.fns sn sn name v
+            (fun isValidTvKind skip cusMsg st => existTop cfg sn name v isValidTvKind skip cusMsg st)
+            (validNamesSplit (effectiveRule cfg cus name tags)) false {}) >>= fun a =>
+          lift a (fieldsLoop cfg sn cus rest {})) := by
+  rw [fieldsLoop_rules]
+  congr 1
+  funext a
+  exact Frame_fieldsLoop cfg sn cus rest a
+
+open PGV.Proofs.Frame in
+/-- index order: the output for a collection is the output for element 0 followed by that of the rest -/
+theorem C02_elements_in_order (cfg : StructCfg) (path : Bytes) (i : Nat) (v : GoVal) (rest : GoVals) :
+    elemsLoop cfg path i (.cons v rest) {}
+      = (validate cfg (path ++ [91] ++ natToBytes i ++ [93]) v true {} >>= fun a =>
+          lift a (elemsLoop cfg path (i + 1) rest {})) := by
+  rw [elemsLoop]
+  congr 1
+  funext a
+  exact Frame_elemsLoop cfg path (i + 1) rest a
+
+open PGV.Proofs.Frame in
+/-- rule order within a field: the first item's contribution, then the remaining items' -/
+theorem C02_rules_in_order (ext : Ext) (fns : FnTables) (scope sn fname : Bytes) (v : GoVal)
+    (descend : Bool → Bool → Bytes → WSt → M WSt) (hd : ∀ a b c, Frame (descend a b c))
+    (r : Bytes) (run) (rs : List Bytes) (d : Bool)
+    (hr : r ≠ []) (hk : resolveFn fns (parseValidNameKV r).1 = .builtin run) (hz : v.isZero = false) :
+    fieldRules ext fns scope sn fname v descend (r :: rs) d {}
+      = (run ext r sn fname v >>= fun t =>
+          lift (({} : WSt).write t) (fieldRules ext fns scope sn fname v descend rs d {})) := by
+  rw [fieldRules_builtin _ _ _ _ _ _ _ _ run _ _ {} hr hk hz]
+  congr 1
+  funext t
+  exact Frame_fieldRules ext fns scope sn fname v descend hd rs d (({} : WSt).write t)
 
 /-- non-vacuity: two violated rules on one `Var` value give two clauses in rule order, one separator -/
 example :
